@@ -163,7 +163,7 @@ func (b stallingBase) stallCall(ctx context.Context) {
 }
 
 func (b stallingBase) Get(ctx context.Context, d digest.Digest) buffer.Buffer {
-	return buffer.NewCASBufferFromReader(d, &pendingReader{data: strings.NewReader(blobData)}, buffer.UserProvided)
+	return buffer.NewCASBufferFromReader(d, &pendingReader{data: strings.NewReader(blobData), failAfter: -1}, buffer.UserProvided)
 }
 
 func (b stallingBase) GetFromComposite(ctx context.Context, parentDigest, childDigest digest.Digest, slicer slicing.BlobSlicer) buffer.Buffer {
